@@ -6,11 +6,65 @@ import (
 	"encoding/json"
 	"fmt"
 	"os"
+	"path/filepath"
 	"runtime"
 	"time"
 
+	"github.com/go-spatial/geom"
 	"github.com/pdok/texel/processing"
+	tgpkg "github.com/pdok/texel/processing/gpkg"
+	"github.com/pdok/texel/snap"
+	"github.com/pdok/texel/tms20"
+	_ "verif/engine/spl"
 )
+
+// realGpkgPass drives the un-instrumented pipeline with the real GeoPackage source and
+// targets (driver stub) so that the race detector sees the accesses of the real writers.
+func realGpkgPass(src, work string) (int, error) {
+	runtime.GOMAXPROCS(16)
+	tms, err := tms20.LoadEmbeddedTileMatrixSet("NetherlandsRDNewQuad")
+	if err != nil {
+		return 0, err
+	}
+	runs := 0
+	for _, ids := range [][]int{{5, 8}, {5, 8, 10}} {
+		for _, page := range []int{1, 2, 1000} {
+			for rep := 0; rep < 3; rep++ {
+				source := tgpkg.SourceGeopackage{}
+				source.Init(src)
+				tables := source.GetTableInfo()
+				targets := map[int]processing.Target{}
+				var real []*tgpkg.TargetGeopackage
+				for _, id := range ids {
+					p := filepath.Join(work, fmt.Sprintf("race-target-%d.gpkg", id))
+					_ = os.Remove(p)
+					t := &tgpkg.TargetGeopackage{}
+					t.Init(p, page)
+					if err := t.CreateTables(tables); err != nil {
+						return runs, err
+					}
+					real = append(real, t)
+					targets[id] = t
+				}
+				for _, table := range tables {
+					source.Table = table
+					for _, t := range real {
+						t.Table = table
+					}
+					processing.ProcessFeatures(source, targets, func(p geom.Polygon, tmIDs []int) map[int][]geom.Polygon {
+						return snap.SnapPolygon(p, tms, tmIDs, snap.Config{KeepPointsAndLines: rep%2 == 0})
+					})
+				}
+				for _, t := range real {
+					t.Close()
+				}
+				source.Close()
+				runs++
+			}
+		}
+	}
+	return runs, nil
+}
 
 // racePass: the same harness bodies, free running (no scheduler; the processing
 // package is NOT instrumented in this build) under the race detector.  Sampled
@@ -117,6 +171,16 @@ func racePass() {
 					}
 				}
 			}
+		}
+	}
+	if src := os.Getenv("VERIF_RACE_SOURCE"); src != "" {
+		n, err := realGpkgPass(src, os.Getenv("VERIF_WORK"))
+		res.Runs += n
+		res.Matching += n
+		res.Configs = append(res.Configs, fmt.Sprintf("real SourceGeopackage -> real snapping -> %d runs with 2..3 real TargetGeopackages (page sizes 1, 2, 1000), GOMAXPROCS 16", n))
+		if err != nil {
+			res.Viol++
+			res.Messages = append(res.Messages, err.Error())
 		}
 	}
 	out, _ := json.Marshal(res)
